@@ -188,6 +188,16 @@ impl Mode {
             x86_op_type::X86_OP_IMM => Err("operand_store called on immediate operand".into()),
             x86_op_type::X86_OP_REG => {
                 let dst_register = self.get_register(operand.reg())?;
+                // a full register only takes a value of its own width (a
+                // 16-bit selector moved to a segment register is not the
+                // 32/64-bit segment base which is modelled here)
+                if dst_register.is_full() && value.bits() != dst_register.bits() {
+                    return Err(Error::Custom(format!(
+                        "cannot store a {}-bit value in a {}-bit register",
+                        value.bits(),
+                        dst_register.bits()
+                    )));
+                }
                 dst_register.set(block, value)
             }
             x86_op_type::X86_OP_MEM => {
